@@ -2,6 +2,7 @@
 #![allow(clippy::type_complexity)]
 mod c01;
 mod c02;
+mod c03;
 mod c04;
 mod c08;
 mod c09;
@@ -28,6 +29,7 @@ fn prop_by_id(id: &str) -> Option<Box<dyn Prop>> {
     Some(match id {
         "C01" => Box::new(c01::C01),
         "C02" => Box::new(c02::C02),
+        "C03" => Box::new(c03::C03),
         "C04" => Box::new(c04::C04),
         "C08" => Box::new(c08::C08),
         "C05" => Box::new(lc::LcProp(lc::Which::C05)),
